@@ -36,7 +36,20 @@ def name2unicode(name: str) -> str:
     components = name.split("_")
 
     if len(components) > 1:
-        return "".join(map(name2unicode, components))
+        # A component without a mapping contributes the empty string; only a
+        # name that maps to nothing at all is unknown.
+        characters = ""
+        for component in components:
+            try:
+                characters += name2unicode(component)
+            except KeyError:
+                pass
+        if not characters:
+            raise PDFKeyError(
+                'Could not convert unicode name "%s" to character because '
+                "none of its components matches specification" % name,
+            )
+        return characters
 
     elif name in glyphname2unicode:
         return glyphname2unicode[name]
